@@ -8,6 +8,7 @@ CONSTANTS
   MaxHard = 1
   MaxPop = 1
   PopClasses = 3
+  AttrClasses = 3
   B1 = 0
   B2 = 0
   B3 = 3
@@ -18,6 +19,7 @@ CONSTANTS
   BFn = 4
   EmitAllUpTo = 0
   Sel = 100
+  CondSel = 6
   KeepGoing = TRUE
 INVARIANT Inv
 CHECK_DEADLOCK FALSE
